@@ -223,8 +223,33 @@ func init() {
 			vc.gfSet(st, "dsrc", d, ifaceVal(r))
 			vc.gfSet(st, "dstart", d, vc.gfGet(st, "rpos", ifaceVal(r)))
 			vc.gfSet(st, "dcons", d, IntLit(0))
+			vc.gfSet(st, "dcount", d, IntLit(0))
 			vc.note("json.Decoder is modelled by stream offsets: it may read any number of bytes ahead of the value it returns and keeps them in its own buffer")
 			return d
+		},
+		"bytes.NewReader": func(vc *VC, st *State, c *ssa.CallCommon, args []Value, pos string) Value {
+			b := vc.term(st, args[0], "bytes")
+			r := vc.newRef(st, "reader")
+			_, h := vc.arrHeap(st, sortInt)
+			content := App(sortStr, "bytes2str", Select(h, sliceArr(b), vc.eng.st.ArrayOf(sortInt, sortInt)), sliceOff(b), sliceLen(b))
+			rc := vc.heap(st, "GF_rcontent", vc.eng.st.ArrayOf(sortInt, sortStr))
+			vc.setHeap(st, "GF_rcontent", Store(rc, r, content))
+			vc.gfSet(st, "rpos", r, IntLit(0))
+			return r
+		},
+		// More(): inside a JSON array, whether another element follows. jsonelems(content) is the (uninterpreted)
+		// number of top-level array elements of the text the decoder reads; dcount counts the elements decoded so far.
+		"(*encoding/json.Decoder).More": func(vc *VC, st *State, c *ssa.CallCommon, args []Value, pos string) Value {
+			d := vc.term(st, args[0], "decoder")
+			src := vc.gfGet(st, "dsrc", d)
+			rc := vc.heap(st, "GF_rcontent", vc.eng.st.ArrayOf(sortInt, sortStr))
+			vc.declareFun("gf_jsonelems", []*Sort{sortStr}, sortInt)
+			n := App(sortInt, "gf_jsonelems", Select(rc, src, sortStr))
+			st.assume(Bin(sortBool, ">=", n, IntLit(0)))
+			return Bin(sortBool, "<", vc.gfGet(st, "dcount", d), n)
+		},
+		"(*encoding/json.Decoder).Token": func(vc *VC, st *State, c *ssa.CallCommon, args []Value, pos string) Value {
+			return vc.havocResults(st, c, "token")
 		},
 		"(*encoding/json.Decoder).Decode": func(vc *VC, st *State, c *ssa.CallCommon, args []Value, pos string) Value {
 			d := vc.term(st, args[0], "decoder")
@@ -242,6 +267,7 @@ func init() {
 			ok := Eq(ifaceTag(err), IntLit(0))
 			st.assume(Implies(ok, Bin(sortBool, "<=", Bin(sortInt, "+", start, ln), vc.gfGet(st, "rpos", src))))
 			vc.gfSet(st, "dcons", d, Ite(ok, Bin(sortInt, "+", vc.gfGet(st, "dcons", d), ln), vc.gfGet(st, "dcons", d)))
+			vc.gfSet(st, "dcount", d, Ite(ok, Bin(sortInt, "+", vc.gfGet(st, "dcount", d), IntLit(1)), vc.gfGet(st, "dcount", d)))
 			// the target object is overwritten with an arbitrary value of its type, and tagged with where it came from
 			v := vc.term(st, args[1], "target")
 			target := ifaceVal(v)
